@@ -572,7 +572,7 @@ NATIVE_DIFF = r'''
 use super::*;
 use amq_protocol::frame::{AMQPFrame, gen_frame};
 use std::io;
-fn enc(f: &AMQPFrame) -> Vec<u8> { let mut b = vec![0u8; 1 << 18]; let n = { let (_, n) = gen_frame((&mut b[..], 0), f).unwrap(); n }; b.truncate(n); b }
+fn enc(f: &AMQPFrame) -> Vec<u8> { let mut b = vec![0u8; 1 << 19]; let n = { let (_, n) = gen_frame((&mut b[..], 0), f).unwrap(); n }; b.truncate(n); b }
 struct Chunks { chunks: Vec<Vec<u8>>, i: usize, terminal: u8 }
 impl io::Read for Chunks {
     fn read(&mut self, buf: &mut [u8]) -> io::Result<usize> {
@@ -595,7 +595,8 @@ fn verif_replay_c06() {
     let mut failures: Vec<String> = Vec::new();
     let mut runs = 0u32;
     // a frame far larger than any read quantum, with more frames right behind it
-    let big = vec![enc(&AMQPFrame::Heartbeat(0)), enc(&AMQPFrame::Body(1, vec![3u8; 100_000])), enc(&AMQPFrame::Heartbeat(0)), enc(&AMQPFrame::Body(2, vec![4u8; 13])), enc(&AMQPFrame::Heartbeat(0))];
+    let big = vec![enc(&AMQPFrame::Heartbeat(0)), enc(&AMQPFrame::Body(1, vec![3u8; 100_000])), enc(&AMQPFrame::Heartbeat(0)), enc(&AMQPFrame::Body(2, vec![4u8; 13])), enc(&AMQPFrame::Heartbeat(0)),
+                   enc(&AMQPFrame::Body(3, vec![5u8; 300_000])), enc(&AMQPFrame::Heartbeat(0))];   // frame_max is negotiable far beyond the 128 KiB default: 300 kB frames are legal
     for (label, frames) in vec![("good", good), ("bad", bad_mid), ("big", big)] {
         let stream: Vec<u8> = frames.concat();
         let mut cands: Vec<usize> = vec![1, 2, 6, 7, 8, 9];
